@@ -1677,7 +1677,31 @@ func pathGuardSets(b *ssa.BasicBlock) (paths [][]guardEdge, ok bool) {
 	if len(fn.Blocks) == 0 {
 		return nil, false
 	}
-	if fn.Blocks[0] == b {
+	if paths, ok := pathGuardSetsFrom(fn.Blocks[0], b); ok {
+		return paths, true
+	}
+	// b lies in a loop: the paths of one iteration, from the innermost loop
+	// header that dominates b (guards established before the loop are not
+	// reported: fewer facts, never wrong ones)
+	for d := b.Idom(); d != nil; d = d.Idom() {
+		header := false
+		for _, p := range d.Preds {
+			if d.Dominates(p) {
+				header = true // a back edge
+			}
+		}
+		if header && blockReaches(b, d) {
+			return pathGuardSetsFrom(d, b)
+		}
+	}
+	return nil, false
+}
+
+// pathGuardSetsFrom: as pathGuardSets, for the acyclic paths from block `from`
+// (which must dominate b) to b that do not pass through `from` again.
+func pathGuardSetsFrom(from, b *ssa.BasicBlock) (paths [][]guardEdge, ok bool) {
+	fn := b.Parent()
+	if from == b {
 		return [][]guardEdge{nil}, true
 	}
 	dead := map[*ssa.BasicBlock]bool{}
@@ -1693,6 +1717,9 @@ func pathGuardSets(b *ssa.BasicBlock) (paths [][]guardEdge, ok bool) {
 	for len(work) > 0 {
 		x := work[len(work)-1]
 		work = work[:len(work)-1]
+		if x == from {
+			continue
+		}
 		for _, p := range x.Preds {
 			if !anc[p] {
 				anc[p] = true
@@ -1700,15 +1727,37 @@ func pathGuardSets(b *ssa.BasicBlock) (paths [][]guardEdge, ok bool) {
 			}
 		}
 	}
-	if !anc[fn.Blocks[0]] {
+	if !anc[from] {
 		return nil, false
+	}
+	// the region must be acyclic once the edges back into `from` are ignored
+	reachIn := func(a, t *ssa.BasicBlock) bool {
+		seen := map[*ssa.BasicBlock]bool{}
+		st := []*ssa.BasicBlock{a}
+		for len(st) > 0 {
+			x := st[len(st)-1]
+			st = st[:len(st)-1]
+			if x == t {
+				return true
+			}
+			if seen[x] || !anc[x] || x == b {
+				continue
+			}
+			seen[x] = true
+			for _, s := range x.Succs {
+				if s != from {
+					st = append(st, s)
+				}
+			}
+		}
+		return false
 	}
 	for x := range anc {
 		if x == b {
 			continue
 		}
 		for _, s := range x.Succs {
-			if anc[s] && blockReaches(s, x) {
+			if s != from && anc[s] && reachIn(s, x) {
 				return nil, false
 			}
 		}
@@ -1757,7 +1806,7 @@ func pathGuardSets(b *ssa.BasicBlock) (paths [][]guardEdge, ok bool) {
 		}
 		iff, isIf := x.Instrs[len(x.Instrs)-1].(*ssa.If)
 		for i, s := range x.Succs {
-			if !anc[s] {
+			if !anc[s] || s == from {
 				continue
 			}
 			nf, ne := len(facts), len(edges)
@@ -1787,7 +1836,7 @@ func pathGuardSets(b *ssa.BasicBlock) (paths [][]guardEdge, ok bool) {
 		}
 		return true
 	}
-	if !rec(fn.Blocks[0]) {
+	if !rec(from) {
 		return nil, false
 	}
 	return paths, true
